@@ -241,8 +241,15 @@ def corpus_decode(drv, path, compiled=None):
         return None, {'skipped': core.err_tag(e)}
     b = msg.serialized_bytes
     key = msg.table_group_key
-    tb, td = tables_io.read_group(key.wmo_tables_sn, key.local_tables_sn, key.tables_root_dir)
+    # the tables the model works on follow from section 1 (worked out by the harness), not from what the decoder says
+    # it used: a decoder that decodes by other tables than the message names disagrees with the model
+    wmo_sn, local_sn = tables_io.expected_sn(*tables_io.section1_values(b))
+    tb, td = tables_io.read_group(wmo_sn, local_sn)
     treq = tables_io.tables_request(tb, td)
+    used = (getattr(key, 'wmo_tables_sn', None), getattr(key, 'local_tables_sn', None))
+    if used != (wmo_sn, local_sn):
+        return ('the decoder reports table group %s for a message whose section 1 names %s' % (used, (wmo_sn, local_sn)),
+                {'ids': 0, 'subsets': 0, 'compressed': False, 'values': 0, 'features': []})
     nsub, comp, ids = parse_section3(b)
     td_ = msg.template_data.value
     subs = []
